@@ -482,8 +482,37 @@ func c01SiteRun(c c01Site) error {
 			return fmt.Errorf("raw words with the same result %d of the bounded draw (1-of-%d) give different passwords: %q and %q", want, n, o, out)
 		}
 		byIdx[want] = out
-		// (no converse: a call site may leave part of a draw's result unused -
-		// an index and a coin in one draw, say - without any bias)
+		// (different results may give the same password - an index and a coin in
+		// one draw, a draw that is ignored - but then evenly: see below)
+	}
+	// preimage balance: with everything else fixed, every password that the
+	// first draw can produce is produced by the same number of its n results
+	// (n small enough to try them all; results that make the generator draw
+	// again are left out). A draw over more alternatives than there are
+	// things to choose, folded back unevenly, fails this.
+	if n <= 4096 && (c.Words == nil || c.Scheme == "none") {
+		base := len(probe.S.Draws)
+		groups := map[string]int{}
+		for j := uint32(0); j < n; j++ {
+			ch := append([]uint32{j}, cont[1:]...)
+			o := callForced(ch, func(k int, m uint32) uint32 { return cont[k%len(cont)] % m }, c.Key, g)
+			if o.Panic != nil {
+				return fmt.Errorf("generation with first draw forced to %d of %d panicked: %v", j, n, o.Panic)
+			}
+			if o.Pw == nil || len(o.S.Draws) != base {
+				continue
+			}
+			groups[tokKey(toToks(o.Pw.Tokens()))]++
+		}
+		size, first := -1, ""
+		for out, k := range groups {
+			if size < 0 {
+				size, first = k, out
+			} else if k != size {
+				return fmt.Errorf("the first draw has %d alternatives; with everything else fixed %d of them give the password %q and %d give %q: the call site folds the draw's result unevenly", n, size, first, k, out)
+			}
+		}
+		ev.Class("preimage_balance_checked")
 	}
 	ev.Leaves(int64(len(vs)))
 	ev.Class("call_site_consistency")
